@@ -73,6 +73,25 @@ impl std::fmt::Display for Frags<'_> {
     }
 }
 
+/// What the panicking `Display` argument says.
+pub const PANICKER_SAYS: &str = "verif: this Display impl panics on purpose";
+
+/// A `Display` impl that panics before it has written anything.
+pub struct Panicker;
+impl std::fmt::Display for Panicker {
+    fn fmt(&self, _f: &mut std::fmt::Formatter<'_>) -> std::fmt::Result {
+        panic!("{}", PANICKER_SAYS)
+    }
+}
+
+/// Insert one panicking-argument `write!` at a seeded position of a history (1 history in 6).
+pub fn maybe_insert_fmt_panic(rng: &mut Rng, ops: &mut Vec<Op>) {
+    if rng.chance(1, 6) && ops.len() < 2000 {
+        let at = rng.below(ops.len() + 1);
+        ops.insert(at, Op::FmtPanic);
+    }
+}
+
 macro_rules! literal_formats {
     ($($i:literal => $s:literal),* $(,)?) => {
         /// Literal-only format strings.  `write!(w, "<literal>")` is the one way to reach
@@ -164,6 +183,8 @@ pub enum Applied {
     FmtLit,
     FmtFail,
     Flush,
+    /// `write!` whose argument panics before writing anything
+    FmtPanic,
 }
 
 pub fn applied_kind(op: &Op, buf: &[u8]) -> Applied {
@@ -193,6 +214,7 @@ pub fn applied_kind(op: &Op, buf: &[u8]) -> Applied {
             }
         }
         Op::Flush => Applied::Flush,
+        Op::FmtPanic => Applied::FmtPanic,
     }
 }
 
@@ -228,6 +250,7 @@ pub fn apply(sut: &mut dyn Write, op: &Op, buf: &[u8]) -> OpResult {
                 write_lit(sut, *k).map(|_| None)
             }
             Applied::Flush => sut.flush().map(|_| None),
+            Applied::FmtPanic => write!(sut, "{}", Panicker).map(|_| None),
         }
     });
     match r {
@@ -375,7 +398,8 @@ pub fn gen_faults(rng: &mut Rng, out_len: usize, starts: &[usize], allow_hard: b
             13 | 14 => FaultKind::WouldBlock,
             15 | 16 => {
                 if allow_hard {
-                    FaultKind::Hard(rng.below(3) as u8)
+                    // a plain ErrorKind, or an error carrying a raw OS number (codes 10..)
+                    FaultKind::Hard(if rng.chance(1, 3) { 10 + rng.below(5) as u8 } else { rng.below(3) as u8 })
                 } else {
                     FaultKind::Interrupted
                 }
